@@ -32,8 +32,8 @@ REQUIRED_PROBES = ("traversal_reversed",)
 
 
 def plan(tier):
-    return {"cases": 256 if tier == "quick" else 1600, "shards": 16,
-            "shard_budget_s": 400 if tier == "quick" else 2400, "watchdog_s": 900 if tier == "quick" else 3600}
+    return {"cases": 256 if tier == "quick" else 3200, "shards": 16,
+            "shard_budget_s": 400 if tier == "quick" else 3300, "watchdog_s": 900 if tier == "quick" else 4500}
 
 
 def required(tier):
